@@ -28,6 +28,7 @@ type LoopSpec struct {
 // GhostUpdate is ghost code: `ghost after|before "stmt" NAME := EXPR` assigns a ghost variable
 // before/after every statement whose printed text starts with the anchor.
 type GhostUpdate struct {
+	Nth    int // 0: every matching statement; N>0: only the N-th match in source order ("stmt"@N)
 	Anchor string
 	After  bool
 	Name   string
@@ -250,6 +251,15 @@ func (c *Contracts) ParseText(path string, text string, pkgPath string) error {
 					return fail(l, "bad statement string: %v", err)
 				}
 				asg := strings.TrimSpace(r2[end+1:])
+				nth := 0
+				if strings.HasPrefix(asg, "@") {
+					j := 1
+					for j < len(asg) && asg[j] >= '0' && asg[j] <= '9' {
+						j++
+					}
+					nth, _ = strconv.Atoi(asg[1:j])
+					asg = strings.TrimSpace(asg[j:])
+				}
 				i := strings.Index(asg, ":=")
 				if i < 0 {
 					return fail(l, "ghost %s \"stmt\" NAME := EXPR expected", f[0])
@@ -259,7 +269,7 @@ func (c *Contracts) ParseText(path string, text string, pkgPath string) error {
 				if err != nil {
 					return fail(l, "%v", err)
 				}
-				cur.GhostUpd = append(cur.GhostUpd, &GhostUpdate{Anchor: anchor, After: f[0] == "after", Name: name, Expr: e, Src: asg})
+				cur.GhostUpd = append(cur.GhostUpd, &GhostUpdate{Anchor: anchor, After: f[0] == "after", Name: name, Expr: e, Src: asg, Nth: nth})
 				break
 			}
 			if len(f) < 3 || f[0] != "var" {
